@@ -25,7 +25,7 @@ m = {
   "guard": "verif",
   "enable": "go build -tags verif (the harness module replaces github.com/ddddddO/gtree by /repo, so it always builds /repo's working tree)",
   "baseline_off_cmd": "cd /repo && GOFLAGS=-mod=mod GOPROXY=off go test -vet=off -count=1 -run 'TestParser|Test_IsSymbol|Test_Markdown|TestGenerate|TestNode_|TestStack_' . ./markdown",
-  "source_commits": ["9ecf88d"],
+  "source_commits": ["9ecf88d", "5055a74"],
   "add_only": True
  },
  "engines": [
